@@ -1382,6 +1382,7 @@ void reb_simulation_rescale_var(struct reb_simulation* const r){
 
             vc->lrescale += log(scale);
             for (int i=0; i<N; i++){
+                particles[i].m /= scale; // a mass variation is part of the (linear) variational state
                 particles[i].x /= scale;
                 particles[i].y /= scale;
                 particles[i].z /= scale;
